@@ -594,7 +594,19 @@ class DaskLazyIndexer:
         # excessive memory and is potentially faster.
         if out is None:
             out = [np.empty(array.shape, array.dtype) for array in kept]
-        da.store(kept, out, lock=False)
+        # da.store names its tasks after the source array and the *contents* of
+        # the target, so an array that appears more than once in `arrays` is
+        # stored only once and its other outputs are never written. Store each
+        # distinct dask array once and copy the result to its repeats.
+        first = {}
+        for array, target in zip(kept, out):
+            first.setdefault(array.name, (array, target))
+        da.store([array for array, _ in first.values()],
+                 [target for _, target in first.values()], lock=False)
+        for array, target in zip(kept, out):
+            stored = first[array.name][1]
+            if target is not stored:
+                target[...] = stored
         return out
 
     def __len__(self):
